@@ -117,13 +117,13 @@ pub fn oracle_snapshot(out: &mut Out, res: &SnapResult, ign: &Ignores) {
         Err(e) => {
             let sig = if res.known_enotdir { "snapshot:error:tracked-path-below-ignored-dir-parent-not-a-directory".to_string() }
                 else if res.known_conflict_dir { "snapshot:panic:file-replacing-directory-with-conflict-not-recorded".to_string() } else { format!("snapshot:{e}") };
-            out.oracle_fail(&sig, format!("snapshot failed ({e}) on disk={} tree={} states={} sparse={}",
+            ofail(out, &sig, format!("snapshot failed ({e}) on disk={} tree={} states={} sparse={}",
                 show_disk(&pre.disk), show_tree(&pre.tree), show_set(&pre.states), show_seq(&pre.sparse)));
             return;
         }
     };
     if res.known_symlink_follow {
-        out.oracle_fail("snapshot:tracked-path-below-ignored-dir-read-through-symlink", format!("disk={} tree={} states={} sparse={} ign={} -> {}",
+        ofail(out, "snapshot:tracked-path-below-ignored-dir-read-through-symlink", format!("disk={} tree={} states={} sparse={} ign={} -> {}",
             show_disk(&pre.disk), show_tree(&pre.tree), show_set(&pre.states), show_seq(&pre.sparse), show_set(&res.ign_set), show_tree(t2)));
         return;
     }
@@ -172,7 +172,7 @@ pub fn oracle_snapshot(out: &mut Out, res: &SnapResult, ign: &Ignores) {
     }
     match bad {
         None => out.oracle_ok(),
-        Some((sig, d)) => out.oracle_fail(sig, d),
+        Some((sig, d)) => ofail(out, sig, d),
     }
 }
 
